@@ -218,3 +218,122 @@ func TestC20(t *testing.T) {
 		cl.done(len(vals) >= 3 && len(distinct) >= 2 && addAfterQuery)
 	})
 }
+
+// TestC20_LargeScale: datasets of thousands to tens of thousands of values (around powers of two in particular),
+// with queries interleaved with further additions and merges, new record minima / maxima and duplicates arriving
+// after queries. Values come from one drawn seed through a cheap deterministic stream.
+func TestC20_LargeScale(t *testing.T) {
+	rapid.Check(t, func(t *rapid.T) {
+		cl := newCase("C20")
+		cl.label("large-scale")
+		n0 := rapid.SampledFrom([]int{1000, 4095, 4096, 4097, 10000, 16383, 16384, 16385, 20000, 32768, 40000, 65537}).Draw(t, "n0")
+		seed := rapid.Uint64().Draw(t, "lcgseed")
+		lcg := func() uint64 {
+			seed = seed*6364136223846793005 + 1442695040888963407
+			return seed >> 11
+		}
+		shape := rapid.SampledFrom([]string{"uniform", "ascending", "descending", "few-distinct"}).Draw(t, "shape")
+		val := func(i int) float64 {
+			switch shape {
+			case "ascending":
+				return float64(i) + float64(lcg()%1000)/1000
+			case "descending":
+				return -float64(i) - float64(lcg()%1000)/1000
+			case "few-distinct":
+				return float64(lcg() % 17)
+			}
+			return float64(lcg()%2000001)/1000 - 1000
+		}
+		cl.logf("C20 large-scale n0=%d shape=%s", n0, shape)
+		d := dataset.NewDataset()
+		var all []float64
+		add := func(v float64) {
+			d.Add(v)
+			all = append(all, v)
+		}
+		for i := 0; i < n0; i++ {
+			add(val(i))
+		}
+		check := func(when string) {
+			s := sortedCopy(all)
+			if d.Count != float64(len(all)) {
+				t.Fatalf("C20 large-scale (%s): Count=%v, %d values were added", when, d.Count, len(all))
+			}
+			if mn, mx := d.Min(), d.Max(); mn != s[0] || mx != s[len(s)-1] {
+				t.Fatalf("C20 large-scale (%s, n=%d): Min/Max = %v/%v, want %v/%v", when, len(s), mn, mx, s[0], s[len(s)-1])
+			}
+			n := len(s)
+			qs := []float64{0, 1, 0.5, 1 / float64(n-1), float64(n-2) / float64(n-1), 1e-9, 1 - 1e-9}
+			for j := 0; j < 12; j++ {
+				k := int(lcg() % uint64(n))
+				qs = append(qs, float64(k)/float64(n-1), float64(lcg()%1000003)/1000003)
+			}
+			for _, q := range qs {
+				if q > 1 {
+					q = 1
+				}
+				checkDatasetQuery(t, d, s, q)
+			}
+			sumAbs, exact := 0.0, new(big.Float).SetPrec(400)
+			for _, v := range s {
+				sumAbs += math.Abs(v)
+				exact.Add(exact, new(big.Float).SetPrec(400).SetFloat64(v))
+			}
+			want, _ := exact.Float64()
+			if got := d.Sum(); !(math.Abs(got-want) <= 8*0x1p-52*sumAbs) {
+				t.Fatalf("C20 large-scale (%s): Sum=%v, want %v", when, got, want)
+			}
+		}
+		check("after the initial fill")
+		rounds := rapid.IntRange(1, 4).Draw(t, "rounds")
+		for r := 0; r < rounds; r++ {
+			s := sortedCopy(all)
+			lo, hi := s[0], s[len(s)-1]
+			m := rapid.SampledFrom([]int{1, 2, 10, 500, 5000}).Draw(t, "batch")
+			kind := rapid.SampledFrom([]string{"below-min", "above-max", "inside", "mixed", "equal-to-min", "merge"}).Draw(t, "batchkind")
+			cl.logf("round %d: %s x%d", r, kind, m)
+			cl.label("batch:" + kind)
+			other := dataset.NewDataset()
+			for i := 0; i < m; i++ {
+				var v float64
+				switch kind {
+				case "below-min":
+					v = lo - 1 - float64(lcg()%1000)
+				case "above-max":
+					v = hi + 1 + float64(lcg()%1000)
+				case "inside":
+					v = s[int(lcg()%uint64(len(s)))]
+				case "equal-to-min":
+					v = lo
+				default:
+					switch lcg() % 3 {
+					case 0:
+						v = lo - float64(lcg()%100)
+					case 1:
+						v = hi + float64(lcg()%100)
+					default:
+						v = lo + (hi-lo)*float64(lcg()%1000)/1000
+					}
+				}
+				if kind == "merge" {
+					other.Add(v)
+					all = append(all, v)
+				} else {
+					add(v)
+				}
+			}
+			if kind == "merge" {
+				before := append([]float64(nil), other.Values...)
+				d.Merge(other)
+				if len(other.Values) != len(before) {
+					t.Fatalf("C20 large-scale: Merge changed its argument")
+				}
+				cl.label("merge")
+			}
+			cl.label("add-after-query")
+			check(kind)
+		}
+		stats.Count("C20", "large_scale_values", int64(len(all)))
+		cl.done(true)
+	})
+}
